@@ -168,9 +168,9 @@ Lemma tables_ok_bare : tables_ok Bare = true. Proof. vm_compute. reflexivity. Qe
 Lemma tables_ok_std : tables_ok Std = true. Proof. vm_compute. reflexivity. Qed.
 Lemma tables_ok_bin : tables_ok Bin = true. Proof. vm_compute. reflexivity. Qed.
 
-Lemma tables_ok_sandboxed : forall c, sandboxed c = true -> tables_ok c = true.
+Lemma tables_ok_sandboxed : forall c : cfg, sandboxed c = true -> tables_ok c = true.
 Proof.
-  intros [] H; [exact tables_ok_bare | exact tables_ok_std | exact tables_ok_bin | discriminate H].
+  intros [] H; [exact tables_ok_bare | exact tables_ok_std | exact tables_ok_bin | vm_compute in H; discriminate H].
 Qed.
 
 Lemma pure_true : forall c f, pure c f = true -> effect_of c f = [].
@@ -192,19 +192,20 @@ Proof.
   - apply pure_true. exact H.
 Qed.
 
-Theorem sandbox_tables_pure : forall c n k f, sandboxed c = true ->
+(* generic: any interpreter context whose tables pass tables_ok *)
+Theorem ctx_tables_pure : forall (c : ctx) n k f, tables_ok c = true ->
   In (n, k, f) (bindings c) -> k <> KValue -> effect_of c f = [].
 Proof.
   intros c n k f Hs Hin Hk.
-  destruct (tables_ok_parts c (tables_ok_sandboxed c Hs)) as [H1 _].
+  destruct (tables_ok_parts c Hs) as [H1 _].
   rewrite forallb_forall in H1. exact (binding_pure_spec c n k f (H1 _ Hin) Hk).
 Qed.
 
-Theorem special_forms_pure : forall c n f, sandboxed c = true ->
+Theorem ctx_special_forms_pure : forall (c : ctx) n f, tables_ok c = true ->
   In (n, f) special_forms -> effect_of c f = [].
 Proof.
   intros c n f Hs Hin.
-  destruct (tables_ok_parts c (tables_ok_sandboxed c Hs)) as [_ [H2 _]].
+  destruct (tables_ok_parts c Hs) as [_ [H2 _]].
   rewrite forallb_forall in H2. apply pure_true. exact (H2 _ Hin).
 Qed.
 
@@ -217,17 +218,17 @@ Proof.
   intros E. subst k. discriminate Hall.
 Qed.
 
-Theorem implicit_prims_pure : forall c n k f, sandboxed c = true -> In (n, k, f) implicit_prims -> effect_of c f = [].
+Theorem ctx_implicit_prims_pure : forall (c : ctx) n k f, tables_ok c = true -> In (n, k, f) implicit_prims -> effect_of c f = [].
 Proof.
   intros c n k f Hs Hin.
-  destruct (tables_ok_parts c (tables_ok_sandboxed c Hs)) as [_ [_ [H3 _]]].
+  destruct (tables_ok_parts c Hs) as [_ [_ [H3 _]]].
   rewrite forallb_forall in H3. exact (binding_pure_spec c n k f (H3 _ Hin) (implicit_never_value n k f Hin)).
 Qed.
 
-Theorem vm_core_pure : forall c f, sandboxed c = true -> In f vm_core -> effect_of c f = [].
+Theorem ctx_vm_core_pure : forall (c : ctx) f, tables_ok c = true -> In f vm_core -> effect_of c f = [].
 Proof.
   intros c f Hs Hin.
-  destruct (tables_ok_parts c (tables_ok_sandboxed c Hs)) as [_ [_ [_ H4]]].
+  destruct (tables_ok_parts c Hs) as [_ [_ [_ H4]]].
   rewrite forallb_forall in H4. apply pure_true. exact (H4 _ Hin).
 Qed.
 
@@ -238,36 +239,58 @@ Proof.
   exists n, k. split; assumption.
 Qed.
 
-(* every primitive of the closure of a sandboxed configuration is effect-free *)
-Theorem closure_pure : forall c f, sandboxed c = true -> In f (closure c) -> effect_of c f = [].
+(* every primitive of the closure of a context with pure tables is effect-free *)
+Theorem ctx_closure_pure : forall (c : ctx) f, tables_ok c = true -> In f (closure c) -> effect_of c f = [].
 Proof.
   intros c f Hs Hin. unfold closure in Hin.
   apply in_app_or in Hin. destruct Hin as [Hin|Hin].
   - apply in_prim_fns in Hin. destruct Hin as [n [k [Hb Hk]]].
-    apply (sandbox_tables_pure c n k f Hs Hb). intros E. subst k. discriminate Hk.
+    apply (ctx_tables_pure c n k f Hs Hb). intros E. subst k. discriminate Hk.
   - apply in_app_or in Hin. destruct Hin as [Hin|Hin].
     + apply in_map_iff in Hin. destruct Hin as [[n f'] [Hf Hin]]. simpl in Hf. subst f'.
-      exact (special_forms_pure c n f Hs Hin).
+      exact (ctx_special_forms_pure c n f Hs Hin).
     + apply in_app_or in Hin. destruct Hin as [Hin|Hin].
       * unfold implicit_fns in Hin. apply in_prim_fns in Hin.
-        destruct Hin as [n [k [Hb _]]]. exact (implicit_prims_pure c n k f Hs Hb).
-      * exact (vm_core_pure c f Hs Hin).
+        destruct Hin as [n [k [Hb _]]]. exact (ctx_implicit_prims_pure c n k f Hs Hb).
+      * exact (ctx_vm_core_pure c f Hs Hin).
 Qed.
 
 (* generic step: a run all of whose primitives are effect-free has no effect *)
-Lemma no_effect_when_pure : forall c l, (forall f, In f l -> effect_of c f = []) -> effects_of c l = [].
+Lemma no_effect_when_pure : forall (c : ctx) l, (forall f, In f l -> effect_of c f = []) -> effects_of c l = [].
 Proof.
   intros c l. unfold effects_of. induction l as [|x xs IH]; intros Hl; simpl; [reflexivity|].
   rewrite (Hl x (or_introl eq_refl)). simpl. apply IH. intros f Hf. apply Hl. right. exact Hf.
 Qed.
 
-(* THE PROPERTY: in a sandboxed configuration no program has any effect. *)
-Theorem sandbox_no_effect : forall c p, sandboxed c = true -> effects_of c (run_abs c p) = [].
+(* no program has any effect in ANY interpreter context whose tables are pure *)
+Theorem ctx_no_effect : forall (c : ctx) p, tables_ok c = true -> effects_of c (run_abs c p) = [].
 Proof.
   intros c p Hs. apply no_effect_when_pure. intros f Hf.
-  apply (closure_pure c f Hs). exact (capability_closed c p f Hf).
+  apply (ctx_closure_pure c f Hs). exact (capability_closed c p f Hf).
 Qed.
 
+(* ---- the four fixed configurations ---- *)
+Theorem sandbox_tables_pure : forall (c : cfg) n k f, sandboxed c = true ->
+  In (n, k, f) (bindings c) -> k <> KValue -> effect_of c f = [].
+Proof. intros c n k f Hs. exact (ctx_tables_pure c n k f (tables_ok_sandboxed c Hs)). Qed.
+
+Theorem special_forms_pure : forall (c : cfg) n f, sandboxed c = true ->
+  In (n, f) special_forms -> effect_of c f = [].
+Proof. intros c n f Hs. exact (ctx_special_forms_pure c n f (tables_ok_sandboxed c Hs)). Qed.
+
+Theorem implicit_prims_pure : forall (c : cfg) n k f, sandboxed c = true -> In (n, k, f) implicit_prims -> effect_of c f = [].
+Proof. intros c n k f Hs. exact (ctx_implicit_prims_pure c n k f (tables_ok_sandboxed c Hs)). Qed.
+
+Theorem vm_core_pure : forall (c : cfg) f, sandboxed c = true -> In f vm_core -> effect_of c f = [].
+Proof. intros c f Hs. exact (ctx_vm_core_pure c f (tables_ok_sandboxed c Hs)). Qed.
+
+Theorem closure_pure : forall (c : cfg) f, sandboxed c = true -> In f (closure c) -> effect_of c f = [].
+Proof. intros c f Hs. exact (ctx_closure_pure c f (tables_ok_sandboxed c Hs)). Qed.
+
+(* THE PROPERTY: in a sandboxed configuration no program has any effect. *)
+Theorem sandbox_no_effect : forall (c : cfg) p, sandboxed c = true -> effects_of c (run_abs c p) = [].
+Proof. intros c p Hs. exact (ctx_no_effect c p (tables_ok_sandboxed c Hs)). Qed.
+
 (* the executable filter the check prints from finds nothing *)
-Lemma impure_entries_none : forall c, sandboxed c = true -> impure_entries c = [].
-Proof. intros [] H; try discriminate H; vm_compute; reflexivity. Qed.
+Lemma impure_entries_none : forall c : cfg, sandboxed c = true -> impure_entries c = [].
+Proof. intros [] H; try (vm_compute in H; discriminate H); vm_compute; reflexivity. Qed.
